@@ -5,10 +5,28 @@ import re
 
 SP, COMMA, BS, CONT, QUOTE = " ", ",", "\\", "\\n", '"'
 
+def _intel(cpu, insn, **kw):
+    return dict({"cpu": cpu, "DB": "db", "DW": "dw", "DL": "dd", "INSN": insn, "attrs": False}, **kw)
+
+
+def _moto(cpu, insn, **kw):
+    return dict({"cpu": cpu, "DB": "dc.b", "DW": "dc.w", "DL": "dc.l", "INSN": insn, "attrs": True}, **kw)
+
+
+# spelling per target of the data statements DB / DW / DL (byte, word, long) and of the sample machine instruction
+# INSN (more than one byte, bytes all different, no symbols); the key is the target name used by the
+# specification (spec/MacroProg.tla Targets*), which also says which of these statements a target has
 DIALECTS = {
-    "z80": {"cpu": "z80", "DB": "db", "DW": "dw", "attrs": False},
-    "68000": {"cpu": "68000", "DB": "dc.b", "DW": "dc.w", "attrs": True},
-    "8051": {"cpu": "8051", "DB": "db", "DW": "dw", "attrs": False},
+    "z80": _intel("z80", "ld hl,4660"), "68000": _moto("68000", "move.w #4660,d1"), "8051": _intel("8051", "mov dptr,#4660"),
+    "msp430": {"cpu": "msp430", "DB": ".byte", "DW": ".word", "INSN": "mov #4660,r5", "attrs": False},
+    "tms9900": {"cpu": "tms9900", "DB": "byte", "DW": "word", "INSN": "clr r1", "attrs": False},
+    "68hc12": _moto("68hc12", "ldd #4660"), "st7": _moto("st7", "ld a,#18"), "68008": _moto("68008", "move.w #4660,d1"),
+    "h8/300": _moto("h8/300", "rts"), "hd6475328": _moto("hd6475328", "rts"), "sh7000": _moto("sh7000", "mov #18,r1"),
+    "am29000": _intel("am29000", "add lr2,lr3,lr4"),
+    "z8001": _intel("z8001", "ld r1,#4660", SET="eval"),      # SET is a machine instruction there: the manual names EVAL
+    "ppc403": _intel("ppc403", "addi r3,r4,4660"), "m16c": _intel("m16c", "mov.w #4660,r0"), "m16": _intel("m16", "mov #18,r1"),
+    "ns32016": _intel("ns32016", "ret 4"), "8086": _intel("8086", "mov ax,4660"), "8096": _intel("8096", "ld 40h,#4660"),
+    "80c166": _intel("80c166", "mov r1,#4660"), "80960": _intel("80960", "addo r3,r4,r5"),
 }
 
 FAULT_TEXT = {
@@ -68,12 +86,14 @@ def render_line(toks, dialect="z80", r=None, keepcase=False):
         elif t == QUOTE:
             inq = not inq
             out.append('"')
-        elif i == opi and t in ("DB", "DW"):
+        elif i == opi and t in ("DB", "DW", "DL") and t in d:
             out.append(_case(d[t], r))
+        elif i == opi and t == "INSN" and "INSN" in d:
+            out.append(d["INSN"])
         elif i == opi and t in FAULT_TEXT.get(dialect, {}):
             out.append(FAULT_TEXT[dialect][t])
         elif i == opi:
-            out.append(_case(t, r))
+            out.append(_case(d.get("SET", t) if t == "SET" else t, r))
         elif inq or keepcase:
             out.append(t)
         elif "." in t:
